@@ -127,6 +127,7 @@ Record scall := {
   s_name : name;                          (* the subcommand given on the command line *)
   s_sub : parser;                         (* its declarations, keys relative to the subcommand *)
   s_subenv : list (tpath * val);          (* environment variables PREFIX_NAME__KEY *)
+  s_envsub : option name;                 (* the variable PREFIX_SUBCOMMAND, if set (any string: NAME, another subcommand, no subcommand) *)
   s_subargv : list arg }.                 (* items after the token *)
 
 Definition prefix_decl (nm : name) (d : decl) : decl :=
